@@ -172,11 +172,30 @@ package graph
 //@ func newGraph funcvalues=pure nosafety
 //@   loop 2
 //@     invariant grows: forall x *Node :: atloop(2, has(seenNode, x)) ==> has(seenNode, x)
+//@   callsite Node.AddToEdgeDiv edgeargs: $arg0 == parent && $arg1 == n && $arg0 != nil && $arg0 != $arg1 && $arg2 == dw && $arg3 == w && $arg4 == residual && $arg5 == (ni != len(locNodes) - 1)
+//@   callsite Node.addSample weights: $arg1 == dw && $arg2 == w && !(dw == 0 && w == 0) && ($arg7 ==> $arg0 == parent && !residual)
+//@   callsite Node.addSample cumonce: $arg7 || !atiter(3, has(seenNode, $arg0))
+//@   loop 1
+//@     mustcall joinLabels processed: true when !(dw == 0 && w == 0)
+//@     mustcall Node.addSample flat: $arg7 when !(dw == 0 && w == 0) && parent != nil && !residual
 //@   loop 3
+//@     mustcall Node.addSample cum: !$arg7 && $arg0 == n when n != nil && !atiter(3, has(seenNode, n))
 //@     invariant grows_inner: forall x *Node :: atloop(2, has(seenNode, x)) ==> has(seenNode, x)
 
 // ---- C04 (strengthened after seeded change call-tree-drops-unsymbolized-locations): in the call-tree builder every
 // location of a sample is visited with at least one (possibly empty) line, so unsymbolized frames are kept ----
+//@     invariant res_true: residual ==> ite(ni + 1 < len(locNodes), locNodes[ni+1] == nil, entry(residual))
+//@     invariant res_false: !residual ==> ite(ni + 1 < len(locNodes), locNodes[ni+1] != nil, !entry(residual))
+//@     invariant idx: -1 <= ni && ni < len(locNodes)
 //@ func newTree funcvalues=pure nosafety
+//@   callsite Node.AddToEdgeDiv edgeargs: $arg0 == parent && $arg1 == n && $arg0 != nil && $arg2 == dw && $arg3 == w && !$arg4 && $arg5 == (lidx != len(lines) - 1)
+//@   callsite Node.addSample weights: $arg1 == dw && $arg2 == w && !(dw == 0 && w == 0) && ($arg7 ==> $arg0 == parent)
+//@   callsite NodeMap.findOrInsertLine line: $arg1 == l && 0 <= lidx && lidx < len(lines)
+//@   loop 1
+//@     mustcall joinLabels processed: true when !(dw == 0 && w == 0)
+//@     mustcall Node.addSample flat: $arg7 when !(dw == 0 && w == 0) && parent != nil
 //@   loop 3
+//@     mustcall Node.addSample cum: !$arg7 && $arg0 == n when n != nil
+//@     mustcall Node.AddToEdgeDiv edge: $arg0 == iter(parent) && $arg1 == n when n != nil && iter(parent) != nil
 //@     invariant nonempty: len(lines) >= 1
+//@     invariant idx: -1 <= lidx && lidx < len(lines)
